@@ -26,6 +26,8 @@ Term grammar (tuples):
   ("upd", base, elem, v)               functional update; elem = ("f", i) | ("i", T) | ("ci", off, fe)
   ("phi", fn, bb, rootkey, site)
 """
+import re
+
 from cfg import rpo
 
 MAX_PASSES = 60
@@ -48,6 +50,8 @@ REF_IDENTITY = (
 TRANSPARENT = ("std::num::Wrapping", "core::num::Wrapping")
 IC_PATH = "wrath_header::inner_crypto::InnerCrypto"
 IC_APPLY = IC_PATH + "::apply"
+# the two by-value conversions between a `GenericArray<T, N>` and `[T; n]` (what `into()` resolves to)
+GA_FROM = re.compile(r"^(digest::)?generic_array::impls::<impl (std|core)::convert::From<((digest::)?generic_array::GenericArray<T, .*>> for \[T; \d+\]|\[T; \d+\]> for (digest::)?generic_array::GenericArray<T, .*>)>::from$")
 WRAPPING_OPS = {"Add": "wrapping_add", "Sub": "wrapping_sub", "Mul": "wrapping_mul"}
 MAX_DEPTH = 10
 
@@ -209,6 +213,7 @@ class SymExec:
         self.forced = {}
         self.passno = 0
         self.call_old = {}  # (site, argidx) -> pointee value of a `&mut` argument at the call
+        self.unsized = {}   # reference term that was unsized from `&[T; N]` -> N
 
     # ------------------------------------------------------------------ store access
     def default(self, root):
@@ -389,7 +394,14 @@ class SymExec:
             t = self.operand(st, r["op"])
             ck = r["ck"]
             if ck.startswith("PointerCoercion(Unsize") or ck.startswith("PointerCoercion(MutToConstPointer"):
-                return t  # array -> slice unsizing keeps the bytes; length comes from the type
+                # array -> slice unsizing keeps the bytes; the length comes from the (static) type
+                # of what is unsized and is remembered for `len()` on the resulting slice
+                if ck.startswith("PointerCoercion(Unsize") and r["op"]["k"] in ("copy", "move"):
+                    sty = place_ty(self.fb, self.body, r["op"]["place"])
+                    sty = sty.peel_refs() if sty is not None else None
+                    if sty is not None and sty.k == "array" and isinstance(sty.len, int):
+                        self.unsized[t] = sty.len
+                return t
             if ck in ("Transmute", "PtrToPtr", "Subtype"):
                 return ("cast", ck, t, self.fb.ty(r["ty"]).s)
             return ("cast", ck, t, self.fb.ty(r["ty"]).s)
@@ -398,6 +410,8 @@ class SymExec:
         if k == "unop":
             a = self.operand(st, r["a"])
             if r["op"] == "PtrMetadata":
+                if a in self.unsized:
+                    return ("int", self.unsized[a], "usize")
                 if a[0] == "ref":
                     return ("len", ("refv", self.read(st, a[1])))
                 return ("len", a)
@@ -455,6 +469,16 @@ class SymExec:
                 cand = "<%s as std::convert::From<%s>>::from" % (ra[1], ra[0])
                 if cand in self.fb.bodies:
                     name = cand
+        # `<[u8; 20]>::from(generic_array)` / `GenericArray::from([u8; 20])`: the conversion `into()`
+        # resolves to, named directly - the same bytes
+        if GA_FROM.match(name) and len(args) == 1:
+            name = "<T as std::convert::Into<U>>::into"
+        # `array.len()`: the slice was unsized from `&[T; N]` in this body - the constant N
+        if name == "core::slice::<impl [T]>::len" and len(args) == 1 and args[0] in self.unsized:
+            v = ("int", self.unsized[args[0]], "usize")
+            dest = self.place_loc(st, t["dest"])
+            self.write(st, dest, v)
+            return {"k": "call", "name": name, "args": args, "locargs": args, "term": v, "inlined": True, "ret": v, "site": site, "dest": dest}
         # size_of::<primitive integer>() is a constant
         if name in ("std::mem::size_of", "core::mem::size_of") and not args:
             ra = [self.fb.ty(a["ty"]).s for a in t.get("resolved_args", []) if "ty" in a]
